@@ -1,7 +1,10 @@
 //! C03 — printed lines survive a change of the MultiProgress draw target (two terminals).
 //!
 //! Histories over {println, add+tick, finish+drop the first live bar, tick, switch to terminal T / U}.
-//! Oracle: on each terminal the lines printed while it was the target are all present, once, in order.
+//! Oracle: on each terminal the lines printed while it was the target are all present, once, in order
+//! (C03); after an operation that draws, every live bar is on the current terminal, once, in order, below
+//! the printed lines (C02); a bar that finished visibly and was dropped keeps its final rendering on the
+//! terminal it was painted on until a line is printed there (C04).
 
 use crate::report::{hash_of, Dfs, Hist, Shard, Stats, Verdict, Violation};
 use crate::term::Spy;
@@ -19,7 +22,14 @@ pub enum Op {
     SwitchU,
 }
 
-pub struct C03x;
+#[derive(Clone, Copy, PartialEq, Debug)]
+pub enum Clause {
+    Logs,
+    Bars,
+    Finished,
+}
+
+pub struct C03x(pub Clause);
 
 impl Hist for C03x {
     type Op = Op;
@@ -36,24 +46,41 @@ impl Hist for C03x {
         let mut cur = 0usize;
         let mut logs: [Vec<String>; 2] = [vec![], vec![]];
         let mut n = 0usize;
+        // prefix of every bar ever added; finished+dropped bars: (prefix, terminal it was finished on, a line was printed there since)
+        let mut names: Vec<String> = Vec::new();
+        let mut added = 0usize;
+        // number of rows the current terminal showed when it (last) became the target: what is above
+        // stays as the old target left it
+        let mut base = 0usize;
+        let mut finished: Vec<(String, usize, bool)> = Vec::new();
         let shown: Vec<String> = hist.iter().map(|o| format!("{:?}", o)).collect();
         // root: two log lines on terminal T
         let mut all: Vec<Op> = vec![Op::Println, Op::Println];
         all.extend(hist.iter().cloned());
+        let (mut added_now, mut had_bars) = (false, false);
         for (i, op) in all.iter().enumerate() {
             clock::advance_ms(3);
+            added_now = bars.len() < 3;
+            had_bars = !bars.is_empty();
             let r = catch(|| match op {
                 Op::Println => {
                     let t = format!("L{n}");
                     let _ = mp.println(&t);
                     logs[cur].push(t);
                     n += 1;
+                    for f in finished.iter_mut() {
+                        if f.1 == cur {
+                            f.2 = true;
+                        }
+                    }
                 }
                 Op::AddTick => {
                     if bars.len() < 3 {
-                        let b = mp.add(ProgressBar::with_draw_target(Some(5), ProgressDrawTarget::hidden()).with_style(ProgressStyle::with_template("{prefix}:{pos}\n+{prefix}").unwrap()).with_prefix(format!("b{}", bars.len())).with_finish(ProgressFinish::AndLeave));
+                        let b = mp.add(ProgressBar::with_draw_target(Some(5), ProgressDrawTarget::hidden()).with_style(ProgressStyle::with_template("{prefix}:{pos}\n+{prefix}").unwrap()).with_prefix(format!("b{}", added)).with_finish(ProgressFinish::AndLeave));
                         b.tick();
                         bars.push(b);
+                        names.push(format!("b{}", added));
+                        added += 1;
                     }
                 }
                 Op::FinishDropFirst => {
@@ -61,6 +88,7 @@ impl Hist for C03x {
                         let b = bars.remove(0);
                         b.finish();
                         drop(b);
+                        finished.push((names.remove(0), cur, false));
                     }
                 }
                 Op::TickLast => {
@@ -71,10 +99,12 @@ impl Hist for C03x {
                 Op::SwitchT => {
                     mp.set_draw_target(ProgressDrawTarget::term_like(spies[0].boxed()));
                     cur = 0;
+                    base = spies[0].doc().len();
                 }
                 Op::SwitchU => {
                     mp.set_draw_target(ProgressDrawTarget::term_like(spies[1].boxed()));
                     cur = 1;
+                    base = spies[1].doc().len();
                 }
             });
             if let Err(p) = r {
@@ -84,7 +114,48 @@ impl Hist for C03x {
         }
         let docs = [spies[0].doc(), spies[1].doc()];
         let _ = catch(move || drop((bars, mp)));
+        let drew = match all.last() {
+            Some(Op::Println) => true,
+            Some(Op::AddTick) => added_now,
+            Some(Op::TickLast | Op::FinishDropFirst) => had_bars,
+            _ => false,
+        };
+        if self.0 == Clause::Bars && drew && !names.is_empty() {
+            // rows of the live bars on the current terminal, in order, after the last printed line
+            let want: Vec<String> = names.iter().flat_map(|n| vec![format!("{n}:0"), format!("+{n}")]).collect();
+            let seg: Vec<String> = docs[cur].iter().skip(base).cloned().collect();
+            let got: Vec<String> = seg.iter().filter(|r| names.iter().any(|n| r.starts_with(&format!("{n}:")) || **r == format!("+{n}"))).cloned().collect();
+            let last_log = seg.iter().rposition(|r| r.starts_with('L'));
+            let first_bar = seg.iter().position(|r| got.contains(r));
+            if got != want || matches!((last_log, first_bar), (Some(l), Some(b)) if b < l) {
+                return Verdict::Bad(Violation {
+                    class: "bars: after set_draw_target a draw does not show every live bar once, in order, below the printed lines".into(),
+                    config: "two terminals".into(),
+                    history: shown,
+                    detail: format!("terminal {}: live bars {:?}, shows {:?} (the first {} rows are from before it became the target)", ["T", "U"][cur], names, docs[cur], base),
+                });
+            }
+        }
+        if self.0 == Clause::Finished {
+            for (name, t, printed) in &finished {
+                // ("<name>:5" is only ever painted by the finish)
+                let (fin, second) = (format!("{name}:5"), format!("+{name}"));
+                let at: Vec<usize> = docs[*t].iter().enumerate().filter(|(_, d)| **d == fin).map(|(i, _)| i).collect();
+                let ok = (at.len() == 1 && docs[*t].get(at[0] + 1) == Some(&second)) || (*printed && at.is_empty());
+                if !ok {
+                    return Verdict::Bad(Violation {
+                        class: "final-state: a bar that finished visibly and was dropped lost its final rendering without a line being printed (set_draw_target)".into(),
+                        config: "two terminals".into(),
+                        history: shown,
+                        detail: format!("terminal {}: bar {name} finished there, shows {:?}", ["T", "U"][*t], docs[*t]),
+                    });
+                }
+            }
+        }
         for t in 0..2 {
+            if self.0 != Clause::Logs {
+                break;
+            }
             let got: Vec<&String> = docs[t].iter().filter(|r| r.starts_with('L')).collect();
             let want: Vec<&String> = logs[t].iter().collect();
             if got != want {
@@ -105,14 +176,19 @@ pub fn depth(tier: Tier) -> usize {
     if tier == Tier::Quick { 5 } else { 7 }
 }
 
-pub fn run(tier: Tier, shard: Shard, stats: &mut Stats) {
-    Dfs::new(&C03x, depth(tier), shard, 1).explore(stats);
+pub fn run(tier: Tier, shard: Shard, stats: &mut Stats, clause: Clause) {
+    Dfs::new(&C03x(clause), depth(tier), shard, 1).explore(stats);
 }
 
-pub fn replay(v: &serde_json::Value) -> Option<i32> {
+pub fn replay(v: &serde_json::Value, id: &str) -> Option<i32> {
     if v["config"] != "two terminals" {
         return None;
     }
     let hist: Vec<String> = v["history"].as_array().map(|a| a.iter().map(|s| s.as_str().unwrap_or("").to_string()).collect()).unwrap_or_default();
-    Some(crate::replay_hist(&C03x, &hist, "C03"))
+    let clause = match id {
+        "C02" => Clause::Bars,
+        "C04" => Clause::Finished,
+        _ => Clause::Logs,
+    };
+    Some(crate::replay_hist(&C03x(clause), &hist, id))
 }
